@@ -227,11 +227,54 @@ class Types:
                 return out
             return OPEN
         if isinstance(n, ast.BinOp):
-            return OPEN      # operator dunders: not modelled
+            names = {ast.Add: ('__add__', '__radd__'), ast.Sub: ('__sub__', '__rsub__'), ast.Mult: ('__mul__', '__rmul__'),
+                     ast.Div: ('__truediv__', '__rtruediv__'), ast.MatMult: ('__matmul__', '__rmatmul__')}.get(type(n.op))
+            if names is None:
+                return set()
+            lc = self._ec(f, n.left, conds, depth + 1, visiting)
+            rc = self._ec(f, n.right, conds, depth + 1, visiting)
+            out = set()
+            done = False
+            if lc is not OPEN and lc:
+                for c in lc:
+                    m = self.repo.lookup_method(c, names[0])
+                    if m is None:
+                        continue
+                    r = self.rets.get(m.key(), set())
+                    if r is OPEN:
+                        return OPEN
+                    out |= r
+                    done = True
+            if not done and rc is not OPEN and rc:
+                for c in rc:
+                    m = self.repo.lookup_method(c, names[1])
+                    if m is None:
+                        continue
+                    r = self.rets.get(m.key(), set())
+                    if r is OPEN:
+                        return OPEN
+                    out |= r
+                    done = True
+            if done:
+                return out
+            if lc is OPEN or rc is OPEN:
+                return OPEN
+            return set()
         if isinstance(n, ast.UnaryOp):
             if isinstance(n.op, ast.USub):
                 c = self._ec(f, n.operand, conds, depth + 1, visiting)
-                return c
+                if c is OPEN or not c:
+                    return c
+                out = set()
+                for k in c:
+                    m = self.repo.lookup_method(k, '__neg__')
+                    if m is None:
+                        return OPEN
+                    r = self.rets.get(m.key(), set())
+                    if r is OPEN:
+                        return OPEN
+                    out |= r
+                return out
             return OPEN
         if isinstance(n, ast.Subscript):
             return OPEN
